@@ -50,11 +50,13 @@ class State:
         # M-MUT
         self.mut_on = False
         self.mut_events = []
+        self.mut_depth = 0
         # M-VARS
         self.vars_on = False
         self.vars_checked = 0
         self.vars_viol = []
         self.vars_memo = {}
+        self.vars_depth = 0
         # M-ROUTE
         self.routes = Counter()
         self.last_route = None
@@ -95,6 +97,19 @@ def _lib():
 def concrete_classes():
     _, E, *_ = _lib()
     return [getattr(E, n) for n in S.ALL]
+
+
+def defining_classes(attr):
+    """Every library class in the MRO of a concrete expression class that defines `attr` itself (hook points
+    are found by introspection so that moving a method to another base class does not lose the hook)."""
+    out = []
+    for cls in concrete_classes():
+        for k in cls.__mro__:
+            if k is object or not getattr(k, "__module__", "").startswith("smoothmath"):
+                continue
+            if attr in k.__dict__ and k not in out:
+                out.append(k)
+    return out
 
 
 def reducer_names():
@@ -209,17 +224,19 @@ def _install_rw():
         if name in cls.__dict__:
             setattr(cls, name, _wrap_rule(cls, name, cls.__dict__[name]))
         ST.rw_rules_seen.add(f"{cls.__name__}.{name}")
-    Expression = be.Expression
-    Expression._consolidate_expression_lacking_variables = _wrap_rule(
-        Expression, "_consolidate_expression_lacking_variables",
-        Expression.__dict__["_consolidate_expression_lacking_variables"], label="<constant-fold>")
+    for cls in defining_classes("_consolidate_expression_lacking_variables"):
+        setattr(cls, "_consolidate_expression_lacking_variables", _wrap_rule(
+            cls, "_consolidate_expression_lacking_variables",
+            cls.__dict__["_consolidate_expression_lacking_variables"], label="<constant-fold>"))
     # step driver: whole-tree forms at depth 0
-    owners = [base.UnaryExpression, base.BinaryExpression, base.NAryExpression, E.Variable, E.Constant]
-    for cls in owners + [c for c in concrete_classes() if c not in owners]:
-        if "_take_reduction_step" in cls.__dict__:
-            cls._take_reduction_step = _wrap_step(cls.__dict__["_take_reduction_step"])
-    Expression._fully_reduce = _wrap_fully_reduce(Expression.__dict__["_fully_reduce"])
-    Expression._normalize = _wrap_normalize(Expression.__dict__["_normalize"])
+    for cls in defining_classes("_take_reduction_step"):
+        fn = cls.__dict__["_take_reduction_step"]
+        if not getattr(fn, "__isabstractmethod__", False):
+            cls._take_reduction_step = _wrap_step(fn)
+    for cls in defining_classes("_fully_reduce"):
+        cls._fully_reduce = _wrap_fully_reduce(cls.__dict__["_fully_reduce"])
+    for cls in defining_classes("_normalize"):
+        cls._normalize = _wrap_normalize(cls.__dict__["_normalize"])
 
 
 def _wrap_rule(cls, name, fn, label=None):
@@ -321,12 +338,11 @@ def rw_stop():
 # ---- M-MEMO ----------------------------------------------------------------------------------------
 
 def _install_memo():
-    _, E, base, *_ = _lib()
-    for cls in (base.UnaryExpression, base.BinaryExpression, base.NAryExpression):
-        cls._evaluate = _wrap_evaluate(cls.__dict__["_evaluate"])
-    for cls in concrete_classes():
-        if "_evaluate" in cls.__dict__ and cls.__name__ not in ("Variable", "Constant"):
-            cls._evaluate = _wrap_evaluate(cls.__dict__["_evaluate"])
+    for cls in defining_classes("_evaluate"):
+        fn = cls.__dict__["_evaluate"]
+        if getattr(fn, "__isabstractmethod__", False):
+            continue
+        cls._evaluate = _wrap_evaluate(fn)
 
 
 def _bits(v):
@@ -376,16 +392,20 @@ def _memo_check(node, point, cached):
 # ---- M-VARS ----------------------------------------------------------------------------------------
 
 def _install_vars():
-    _, E, base, *_ = _lib()
-    for cls in (base.UnaryExpression, base.BinaryExpression, base.NAryExpression, E.Variable, E.Constant):
+    for cls in defining_classes("__init__"):
         cls.__init__ = _wrap_init_vars(cls.__dict__["__init__"])
 
 
 def _wrap_init_vars(fn):
     @functools.wraps(fn)
     def w(self, *a, **k):
-        fn(self, *a, **k)
-        if ST.vars_on and not ST.busy:
+        ST.vars_depth += 1
+        try:
+            fn(self, *a, **k)
+        finally:
+            ST.vars_depth -= 1
+        # judged once, when the outermost __init__ of the object has returned
+        if ST.vars_on and not ST.busy and ST.vars_depth == 0 and "_variable_names" in self.__dict__:
             ST.vars_checked += 1
             try:
                 truth = R.true_variables(self, ST.vars_memo)
@@ -486,33 +506,36 @@ def _recording_delattr(self, name):
     object.__delattr__(self, name)
 
 
+def _wrap_init_mut(fn):
+    @functools.wraps(fn)
+    def w(self, *a, **k):
+        ST.mut_depth += 1
+        try:
+            fn(self, *a, **k)
+        finally:
+            ST.mut_depth -= 1
+        if ST.mut_on and ST.mut_depth == 0:
+            d = self.__dict__
+            cur = d.get("_inners")
+            if type(cur) is list:
+                rl = RecList(cur)
+                rl._owner = self
+                object.__setattr__(self, "_inners", rl)
+            vn = d.get("_variable_names")
+            if type(vn) is set:
+                object.__setattr__(self, "_variable_names", RecSet(vn))
+    return w
+
+
 def _install_mut():
     sm, E, base, be, mf, acc, pa, pt = _lib()
     for cls in (be.Expression, sm.Point, sm.Partial, sm.Derivative, sm.Differential, sm.LocatedDifferential):
         cls.__setattr__ = _recording_setattr
         cls.__delattr__ = _recording_delattr
-    # in-place containers
-    nary = base.NAryExpression
-    orig_nary = nary.__dict__["__init__"]
-
-    @functools.wraps(orig_nary)
-    def nary_init(self, *a, **k):
-        orig_nary(self, *a, **k)
-        if ST.mut_on:
-            cur = self.__dict__.get("_inners")
-            if type(cur) is list:
-                rl = RecList(cur)
-                rl._owner = self
-                object.__setattr__(self, "_inners", rl)
-    nary.__init__ = nary_init
-    orig_expr = be.Expression.__dict__["__init__"]
-
-    @functools.wraps(orig_expr)
-    def expr_init(self, variable_names):
-        if ST.mut_on and type(variable_names) is set:
-            variable_names = RecSet(variable_names)
-        orig_expr(self, variable_names)
-    be.Expression.__init__ = expr_init
+    # in-place containers: after the outermost __init__ of an expression returned, a plain child list / variable-name
+    # set is replaced by a recording subclass (same contents, same behaviour)
+    for cls in defining_classes("__init__"):
+        cls.__init__ = _wrap_init_mut(cls.__dict__["__init__"])
     orig_point = sm.Point.__dict__["__init__"]
 
     @functools.wraps(orig_point)
